@@ -256,3 +256,14 @@ CHECKS['C19'] = dict(
          _mode_jobs('MODE_DRYRUN', [2, 1, 24], extra=['LEFTOVERS'], suffix='_leftovers', reach=('compared', 'dry-run-aborted'), bounds='the same with a stale depfile / kept response file possibly present and directory creation possibly failing') +
          [dict(name='json', harness='c19_json.cc', units=['json'], stubs=False, reach=['escaped', 'verbatim'],
                quick=dict(defines=['VERIF_N=3'], bounds='every NUL-free byte string of length 0..3'), thorough=dict(defines=['VERIF_N=5'], bounds='every NUL-free byte string of length 0..5', limits=dict(time=3000, max_paths=3000000)))])
+
+_STATUS_UNITS = PIPELINE
+CHECKS['C20'] = dict(
+    title='progress and command output are reported once, whole and consistent',
+    level_text='One symbolic invocation over the whole real pipeline with the real StatusPrinter and LinePrinter (non-terminal output, default status format) writing to a captured stdout; which commands print output is symbolic, as are -j, failures, -k and every completion order, on shapes with a depth-1 pool and the console pool, restat pruning and dyndep additions. The harness parses the captured bytes and asserts: each command\'s output block appears exactly once, contiguously, directly after that command\'s status line (after FAILED: [code=..] outputs and the command line for failures); finished <= total on every status line, started == finished at the end and finished == total after success; while a console-pool command runs nothing is written, and everything held back appears afterwards.',
+    level_note='Trusted base as C01 plus the 40-line transcript checker. The subprocess pipes (Subprocess::OnPipeReady), the smart-terminal path (ioctl, cursor control) and custom status formats are outside this check (format handling on arbitrary strings is covered by C13/status_format).',
+    assumptions=_PIPE_ASSUME + ['stdout is not a terminal (LinePrinter dumb mode); default status format'],
+    jobs=_mode_jobs('MODE_STATUS', [9, 5], reach=('success', 'output-shown'), bounds='one invocation from the empty tree, -j in {1,2,3}, each command prints or not, every completion order') +
+         _mode_jobs('MODE_STATUS', [9, 13], extra=['WITH_FAILURES'], suffix='_fail', reach=('failure',), bounds='the same with any subset of commands failing, -k in {1,2}') +
+         _mode_jobs('MODE_STATUS', [12, 1], extra=['FROM_BUILT'], suffix='_built', reach=('success',), bounds='from a fully built tree after symbolic edits/deletions (restat pruning)') +
+         _mode_jobs('MODE_STATUS', [7], extra=['FROM_BUILT'], suffix='_built', reach=('success',), bounds='from a fully built tree after symbolic edits/deletions (dyndep additions)', thorough_only=True))
